@@ -37,7 +37,7 @@ CfgOf(e) ==
   [place |-> [c \in Checks |-> ToSet(e.place[c])],
    verd  |-> [c \in Checks |-> [s \in Stages |-> e.verd[c][s]]],
    only1 |-> ToSet(e.only1), route |-> e.route, path |-> e.path, dmarc |-> e.dmarc,
-   kind |-> e.kind, nn |-> 0, cells |-> {}, fixed |-> TRUE]
+   kind |-> e.kind, mod |-> e.mod, mfail |-> ToSet(e.mfail), nn |-> 0, cells |-> {}, fixed |-> TRUE]
 
 TInit ==
   /\ InitWith(RemoteCfg)
@@ -65,9 +65,12 @@ C_Call == /\ IsEv("CheckCall") /\ run.st = "grp" /\ Ev.c \in run.pend
           /\ Head(run.items).stage = Ev.stage /\ Head(run.items).arg = Ev.arg
           /\ VerdictOf(cfg, Ev.c, Ev.stage, Ev.arg) = Ev.v /\ Ev.cmd = obs.n
           /\ CallDone(Ev.c)
-C_Tgt  == /\ IsEv("TgtCall") /\ cfg.kind = "pipe" /\ run.st = "tgt"
+C_Mod  == /\ IsEv("ModCall") /\ run.st = "mod" /\ Ev.r = run.r /\ Ev.blk = RouteOf(cfg, run.r)
+          /\ Ev.res = (IF run.r \in cfg.mfail THEN "err" ELSE "ok")
+          /\ Mod
+C_Tgt  == /\ IsEv("TgtCall") /\ cfg.kind \in {"pipe", "rpipe"} /\ run.st = "tgt"
           /\ \E x \in run.tq :
-               /\ x.t = Ev.tgt /\ x.op = Ev.op /\ Ev.res = "ok" /\ Ev.q = metaQ
+               /\ x.t = Ev.tgt /\ x.op = Ev.op /\ Ev.res = TgtRes(x) /\ Ev.q = metaQ
                /\ Ev.arg = (IF x.op = "rcpt" THEN run.r ELSE "")
                /\ Tgt(x)
 C_Rem  == /\ IsEv("TgtCall") /\ cfg.kind = "remote" /\ Ev.tgt = "remote" /\ Ev.q = metaQ
@@ -76,7 +79,7 @@ C_Rem  == /\ IsEv("TgtCall") /\ cfg.kind = "remote" /\ Ev.tgt = "remote" /\ Ev.q
 C_Ret  == IsEv("Ret") /\ run.st = "ret" /\ run.op = Ev.op /\ run.r = Ev.r /\ run.res = Ev.res /\ Ret
 C_End  == IsEv("End") /\ End
 
-Conform == C_Cmd \/ C_Call \/ C_Tgt \/ C_Rem \/ C_Ret \/ C_End
+Conform == C_Cmd \/ C_Call \/ C_Mod \/ C_Tgt \/ C_Rem \/ C_Ret \/ C_End
 
 C_Step ==
   /\ ~drift
@@ -89,6 +92,7 @@ ObsApply(o, e) ==
   CASE e.e = "Cmd"       -> ObsCmd(o, cfg, e.op, e.r)
     [] e.e = "CheckCall" -> ObsCall(o, cfg, e.c, e.stage, e.arg, e.v, e.cmd)
     [] e.e = "TgtCall"   -> ObsTgt(o, cfg, e.tgt, e.op, e.arg, e.res, e.q)
+    [] e.e = "ModCall"   -> ObsMod(o, cfg, e.blk, e.r, e.res)
     [] e.e = "Ret"       -> ObsRet(o, cfg, e.op, e.r, e.res)
     [] e.e = "End"       -> ObsEnd(o, cfg)
     [] OTHER -> o
